@@ -43,6 +43,7 @@ static void add_ro_var(struct cat_command *c)
 }
 static void finish_world(void)
 {
+        for (size_t i = 0; i < W.ncmds; i++) if (W.cmd[i]->var_num == 0) w_vars(W.cmd[i], 0);      /* no variables: var NULL or an empty table */
         if (W.ngroups < MAXGRP && chance(25)) w_noise_group(30 + rn(100));      /* a quarter of the tables with background event traffic */
         size_t maxname = 0;
         for (size_t i = 0; i < W.ncmds; i++) if (strlen(W.cmd[i]->name) > maxname) maxname = strlen(W.cmd[i]->name);
